@@ -63,6 +63,10 @@ def geoms(ctx):
                 [[-1, -1, -1], [-1, 1, 1], [-1, -1, -3]]], zden=1, C=[[5, 1, 0], [1, 6, -1], [0, -1, 4]], cden=1),
         dict(entry="hcp", mats=[diag(2, 2, 2)], S=diag(2, 2, 2), Z=None),
         dict(entry="sc", mats=[diag(3, 3, 3)], S=diag(3, 3, 3), Z=None),
+        # primitive cell != unit cell: primitive_matrix F (grouped species) and I
+        dict(entry="naclg", mats=[I3], S=I3, Z=[zdiag(3, 3)] * 4 + [neg(zdiag(3, 3))] * 4, zden=2,
+             C=zdiag(5, 5), cden=2, prim=True),
+        dict(entry="bcc", mats=[diag(2, 2, 2)], S=diag(2, 2, 2), Z=None, prim=True),
     ]
     if not ctx.quick:
         g += [
@@ -75,6 +79,10 @@ def geoms(ctx):
             dict(entry="tetab", mats=[diag(2, 2, 2), [[1, -1, 0], [1, 1, 0], [0, 0, 2]]],
                  S=[[1, -1, 0], [1, 1, 0], [0, 0, 2]], Z=[zdiag(1, 2), neg(zdiag(1, 2))], zden=1, C=zdiag(3, 7), cden=2),
             dict(entry="bcc", mats=[diag(2, 2, 2)], S=diag(2, 2, 2), Z=None),
+            # primitive_matrix F with interleaved species: the images of a primitive atom are not contiguous
+            dict(entry="nacl", mats=[I3], S=I3, Z=[zdiag(1, 1), neg(zdiag(1, 1))] * 4, zden=1, C=zdiag(2, 2), cden=1,
+                 prim=True),
+
             dict(entry="nacl", mats=[I3], S=I3,
                  Z=[zdiag(1, 1), neg(zdiag(1, 1))] * 4, zden=1, C=zdiag(2, 2), cden=1),
         ]
@@ -100,7 +108,11 @@ def make_cfgs(ctx):
         if g["entry"] in OUTSIDE_ON_MIRROR:
             # outside the first reciprocal cell; its image q - rint(q) lies on a mirror plane, q itself does not
             pts.add(OUTSIDE_ON_MIRROR[g["entry"]])
-        c = dict(id=k + 1, entry=g["entry"], S=g["S"], box=2, nac=g["Z"] is not None,
+        if g.get("prim"):
+            pts.discard(OUTSIDE_ON_MIRROR.get(g["entry"]))
+        c = dict(id=k + 1, entry=g["entry"], S=g["S"], box=2, nac=g["Z"] is not None, prim=bool(g.get("prim")),
+                 ncent=({"bcc": 2}.get(g["entry"], 4) if g.get("prim") else {"nacl": 4, "naclg": 4, "bcc": 2}.get(g["entry"], 1)),
+                 dirs=[(1, 0, 0), (0, 0, 1), (1, 2, 3)],
                  Z=g["Z"] or [], zden=g.get("zden", 1), C=g.get("C") or [], cden=g.get("cden", 1),
                  pts=sorted(pts), pden=7, mats=g["mats"])
         cfgs.append(c)
@@ -108,15 +120,17 @@ def make_cfgs(ctx):
 
 
 def cfg_tla(c):
-    return ("[id |-> %d, entry |-> %s, S |-> %s, box |-> %d, nac |-> %s, Z |-> %s, zden |-> %d, C |-> %s, cden |-> %d, "
-            "pts |-> %s, pden |-> %d]" % (c["id"], to_tla(c["entry"]), to_tla(c["S"]), c["box"],
+    return ("[ncent |-> %d, dirs |-> %s, id |-> %d, entry |-> %s, S |-> %s, box |-> %d, nac |-> %s, Z |-> %s, zden |-> %d, "
+            "C |-> %s, cden |-> %d, "
+            "pts |-> %s, pden |-> %d]" % (c["ncent"], to_tla(set(c["dirs"])), c["id"], to_tla(c["entry"]), to_tla(c["S"]), c["box"],
                                          "TRUE" if c["nac"] else "FALSE", to_tla(c["Z"]), c["zden"],
                                          to_tla(c["C"]) if c["C"] else "<<>>", c["cden"],
                                          to_tla(set(map(tuple, c["pts"]))), c["pden"]))
 
 
-GV_REQ = ["TypeOK", "ReqShortestIsImage", "ReqShortestReversal", "ReqQuotientRule", "ReqEuler", "ReqDKSymmetric"]
-GV_PRE = ["PreSupercellComplete", "PreShortestStable", "PreTensorsSymmetric", "PreDenominator", "PreSupercellKeepsPointGroup"]
+GV_REQ = ["TypeOK", "ReqShortestIsImage", "ReqShortestReversal", "ReqQuotientRule", "ReqEuler", "ReqDKSymmetric",
+          "ReqEulerGamma"]
+GV_PRE = ["PreSupercellComplete", "PreShortestStable", "PreTensorsSymmetric", "PreDenominator", "PreSupercellKeepsPointGroup", "PreCentringGroup"]
 CFG_GV = "SPECIFICATION Spec\nCONSTANTS\n Cfgs <- MCCfgs\nCHECK_DEADLOCK FALSE\n" + \
     "".join("INVARIANT %s\n" % i for i in GV_REQ + GV_PRE)
 
@@ -137,28 +151,10 @@ class GVCase:
         nc["Z"] = [(np.array(z, float) / c["zden"]).tolist() for z in c["Z"]] if c["nac"] else []
         nc["C"] = (np.array(c["C"], float) / c["cden"]).tolist() if c["nac"] else np.eye(3).tolist()
         self.c = c
+        # primitive cell: the unit cell itself, or (prim) the cell of the centring F / I handed to phonopy
+        nc["pm"] = ({"bcc": "I"}.get(c["entry"], "F") if c.get("prim") else None)
         self.nc = NacCase(nc, orc, factor=factor)
         n = self.nc
-        assert n.pm_name is None or c["entry"] in ("nacl", "naclg")
-        self.use_prim = False
-        if n.pm_name is not None:
-            # the spec treats the unit cell as the primitive cell: rebuild without primitive matrix
-            from phonopy import Phonopy
-            with quiet():
-                n.ph0 = Phonopy(n.uc, supercell_matrix=c["S"], primitive_matrix=None, log_level=0)
-            n.pm_name = None
-            n.P = np.eye(3)
-            n.fc_full = orc.supercell_fc(c["S"], n.ph0.supercell)
-            n.ph0.force_constants = n.fc_full.copy()
-            prim = n.ph0.primitive
-            n.fc_compact = np.array(n.fc_full[prim.p2s_map], dtype="double", order="C")
-            n.nprim = len(n.ph0.supercell) // len(prim)
-            n.masses = np.array(prim.masses)
-            n.volume = prim.volume
-            n.at = list(range(1, len(prim) + 1))
-            upos = np.array(n.uc.scaled_positions)
-            d = np.array(prim.scaled_positions) - upos
-            assert np.abs(d - np.rint(d)).max() < 1e-8
         self.L, self.Linv, self.a, self.D = n.L, n.Linv, n.a, orc.D
         self.prim = n.ph0.primitive
         self.sc = n.ph0.supercell
@@ -182,7 +178,18 @@ class GVCase:
                     break
             self.s2spec.append(idx[(a, class_key(c["S"], self.D, u[k]))])
             self.s_atom.append(a)
-        self.prim_of_unit = {a: p for p, a in enumerate(n.at)}
+        # unit-cell atom -> primitive atom of its sublattice, through the specification's centring translations
+        cents = set(tuple(v) for v in built["cents"]) if c.get("prim") else {(0, 0, 0)}   # unit cell used as primitive cell
+        if len(cents) * len(self.prim) != len(n.uc) or self.N != len(cents) * abs(int(round(np.linalg.det(np.array(c["S"], float))))):
+            raise tlcmod.MachineryError("primitive cell of phonopy does not match the centring group of the specification")
+        self.prim_of_unit = {}
+        for b_, nb in enumerate(orc.num):
+            for p_, a_ in enumerate(n.at):
+                na = orc.num[a_ - 1]
+                if n.uc.symbols[b_] == n.uc.symbols[a_ - 1] and \
+                        tuple((nb[i] - na[i]) % self.D for i in range(3)) in cents:
+                    self.prim_of_unit[b_ + 1] = p_
+        assert len(self.prim_of_unit) == len(n.uc)
         self.sv = {}
         for key, vecs in built["sv"].items():
             self.sv[(key[0], key[1])] = np.array(sorted(vecs), dtype=float) / self.D
@@ -238,6 +245,30 @@ class GVCase:
         dDc = np.array([sum(self.L[b, al] * dD[b] for b in range(3)) for al in range(3)])
         return Dm, dDc
 
+    def expected_second(self, x, pden):
+        """second Cartesian q-derivatives of the plain lattice Fourier sum, order xx, yy, zz, yz, xz, xy
+        (DerivativeOfDynamicalMatrix.set_derivative_order(2))."""
+        n = self.nc
+        q = np.array(x, float) / pden
+        npa = self.npa
+        fc = n.fc_full
+        p2s = self.prim.p2s_map
+        m = n.masses
+        d2 = np.zeros((6, 3 * npa, 3 * npa), complex)
+        pairs = [(0, 0), (1, 1), (2, 2), (1, 2), (0, 2), (0, 1)]
+        for i in range(npa):
+            ai = n.at[i]
+            for k in range(len(self.sc)):
+                j = self.prim_of_unit[self.s_atom[k]]
+                r = self.sv[(ai, self.s2spec[k] + 1)]
+                rc = r @ self.L
+                ph = np.exp(2j * np.pi * (r @ q))
+                w = 1.0 / np.sqrt(m[i] * m[j])
+                for e, (a, b) in enumerate(pairs):
+                    co = ((2j * np.pi) ** 2 * rc[:, a] * rc[:, b] * ph).mean()
+                    d2[e, 3 * i:3 * i + 3, 3 * j:3 * j + 3] += fc[p2s[i], k] * co * w
+        return np.array([(d + d.conj().T) / 2 for d in d2])
+
 
 def gv_from(Dm, dDc, factor, cutoff=1e-4, gap_rel=5e-3):
     """expected group velocities of the non-degenerate modes; mask of those modes."""
@@ -288,13 +319,15 @@ def group_velocity_part(ctx, margins):
         states = tla_values.parse_dump(res.dump_path)
     finally:
         tlcmod.cleanup(res)
-    require_actions_fired(ctx, res, "GroupVelocity", ["Build", "Differentiate"])
+    require_actions_fired(ctx, res, "GroupVelocity", ["Build", "Differentiate", "GammaAlong"])
     by = {}
     for st in states:
         if st["pc"] == "built":
             by.setdefault(st["cfg"]["id"], {})["built"] = st
         elif st["pc"] == "at":
             by.setdefault(st["cfg"]["id"], {}).setdefault("at", []).append(st)
+        elif st["pc"] == "gamma":
+            by.setdefault(st["cfg"]["id"], {}).setdefault("gamma", []).append(st)
 
     oracles = {}
     gv_events = []
@@ -308,7 +341,7 @@ def group_velocity_part(ctx, margins):
         fac = n.ph0.unit_conversion_factor
         objs = {"plain/full": n.ph0}
         with quiet():
-            phc = Phonopy(n.uc, supercell_matrix=c["S"], primitive_matrix=None, log_level=0)
+            phc = Phonopy(n.uc, supercell_matrix=c["S"], primitive_matrix=n.pm_name, log_level=0)
             phc.force_constants = n.fc_compact.copy()
         objs["plain/compact"] = phc
         if c["nac"]:
@@ -317,7 +350,8 @@ def group_velocity_part(ctx, margins):
             objs["wang/compact"] = n.nac_phonopy("wang", "compact", born=born, eps=n.eps_raw)
         for st in by[c["id"]]["at"]:
             x = st["x"]
-            q = np.array(x, float) / c["pden"]
+            q = np.array(x, float) / c["pden"]          # unit-cell reciprocal coordinates (the specification's)
+            qp = n.to_prim_red(q)                       # what phonopy is given
             at_gamma = all(v == 0 for v in x)
             for name, ph in objs.items():
                 nac = name.startswith("wang")
@@ -330,7 +364,7 @@ def group_velocity_part(ctx, margins):
                 scale_dd = max(np.abs(dDc).max(), 1e-3 * gscale * np.abs(case.L).max())
                 # hypothesis of the comparison: the assembled D(q) is phonopy's D(q)
                 with quiet():
-                    ph.run_qpoints([q], with_dynamical_matrices=True)
+                    ph.run_qpoints([qp], with_dynamical_matrices=True)
                 dreal = ph.get_qpoints_dict()["dynamical_matrices"][0]
                 e0 = np.abs(dreal - Dm).max() / scale_d
                 upd(margins, "dm", e0)
@@ -343,7 +377,7 @@ def group_velocity_part(ctx, margins):
                     ddm = DerivativeOfDynamicalMatrix(ph.dynamical_matrix)
                     try:
                         with quiet():
-                            ddm.run(q, lang=lang)
+                            ddm.run(qp, lang=lang)
                         got = np.array(ddm.d_dynamical_matrix)
                     except Exception as e:
                         ctx.violation("gv:ddm-raises", "DerivativeOfDynamicalMatrix.run raised %r" % e,
@@ -358,12 +392,30 @@ def group_velocity_part(ctx, margins):
                                       "the lattice Fourier sum", dict(cfg=c, x=x, q=q, path=name, lang=lang,
                                                                     rel_err=float(e1), expected=dDc[0][:3, :6],
                                                                     got=got[0][:3, :6]))
+                if name == "plain/full":
+                    # derivative order 2 (Python path only; used by get_eigenvectors(derivative_order=2))
+                    ddm2 = DerivativeOfDynamicalMatrix(ph.dynamical_matrix)
+                    try:
+                        with quiet():
+                            ddm2.set_derivative_order(2)
+                            ddm2.run(qp)
+                        got2 = np.array(ddm2.d_dynamical_matrix)
+                        exp2 = case.expected_second(x, c["pden"])
+                        e6 = np.abs(got2 - exp2).max() / max(np.abs(exp2).max(), 1e-3 * gscale * np.abs(case.L).max() ** 2)
+                        upd(margins, "ddm_order2", e6)
+                        ctx.count(("ddm2", c["id"], tuple(x)))
+                        if not (e6 <= TOL["ddm"]):
+                            ctx.violation("gv:ddm-order2", "second q-derivative of the dynamical matrix differs from the "
+                                          "term-wise second derivative of the lattice Fourier sum",
+                                          dict(cfg=c, x=x, q=qp, rel_err=float(e6)))
+                    except Exception as e:
+                        ctx.violation("gv:ddm-order2-raises", "derivative order 2 raised %r" % e, dict(cfg=c, q=qp))
                 if at_gamma:
                     continue
                 # ---- group velocities -----------------------------------------------------
                 fr, gvx, ok = gv_from(Dm, dDc, fac)
                 with quiet():
-                    ph.run_qpoints([q], with_group_velocities=True)
+                    ph.run_qpoints([qp], with_group_velocities=True)
                 d = ph.get_qpoints_dict()
                 gvr = np.array(d["group_velocities"][0])
                 frr = np.array(d["frequencies"][0])
@@ -394,7 +446,7 @@ def group_velocity_part(ctx, margins):
                                                                                    got=tr_got, expected=tr_exp))
                 # the statement itself: gradient of the frequencies phonopy reports
                 if name.endswith("full"):
-                    g2 = freq_gradient(ph, q, case.L)
+                    g2 = freq_gradient(ph, qp, np.array(ph.primitive.cell))
                     _, _, okfd = gv_from(Dm, dDc, fac, gap_rel=2e-2)      # finite differences need a wider gap
                     ok = okfd
                     if ok.any():
@@ -414,9 +466,9 @@ def group_velocity_part(ctx, margins):
         if c["nac"]:
             modes += [("gl", "gonze", s) for s in oth[:1] + spc]
         for mode, method, st in modes:
-            q = np.array(st["x"], float) / c["pden"]
+            q = n.to_prim_red(np.array(st["x"], float) / c["pden"])
             with quiet():
-                ph = Phonopy(n.uc, supercell_matrix=c["S"], primitive_matrix=None, log_level=0,
+                ph = Phonopy(n.uc, supercell_matrix=c["S"], primitive_matrix=n.pm_name, log_level=0,
                              group_velocity_delta_q=(1e-5 if mode == "fd" else None))
                 ph.force_constants = n.fc_full.copy()
                 if method:
@@ -426,7 +478,7 @@ def group_velocity_part(ctx, margins):
             d = ph.get_qpoints_dict()
             gvr = np.array(d["group_velocities"][0])
             frr = np.array(d["frequencies"][0])
-            g2 = freq_gradient(ph, q, case.L)
+            g2 = freq_gradient(ph, q, np.array(ph.primitive.cell))
             bw = frr.max() - frr.min()
             ok = np.array([frr[i] > 2e-2 * bw and min(abs(frr[i] - frr[j]) for j in range(len(frr)) if j != i) > 2e-2 * bw
                            for i in range(len(frr))])
@@ -441,11 +493,82 @@ def group_velocity_part(ctx, margins):
                                   "the reported frequencies" % mode, dict(cfg=c, q=q, rel_err=float(e4), got=gvr[ok],
                                                                          gradient=g2[ok]))
         cutoff_replay(ctx, c, case, objs, oth[: (1 if ctx.quick else 3)], by, fac, margins, gv_events)
+        if c["nac"]:
+            gamma_direction(ctx, c, case, objs, by, fac, margins)
         ctx.traces += len(by[c["id"]]["at"])
         if len(ctx.samples) < 2:
             ctx.sample(dict(kind="derivative", entry=c["entry"], S=c["S"], nac=c["nac"], q=[v / c["pden"] for v in st["x"]],
                             n_shortest_sets=len(case.sv), max_multiplicity=max(len(v) for v in case.sv.values())))
     return gv_events
+
+
+def gamma_direction(ctx, c, case, objs, by, fac, margins):
+    """Group velocity AT the zone centre approached along a direction (run_qpoints(nac_q_direction=d,
+    with_group_velocities=True) -> GroupVelocity.run(perturbation=d)): for every mode that is non-degenerate in
+    the spectrum reported there (with the non-analytical term along d) and above the cutoff, the component of the
+    reported velocity along d must be the one-sided derivative of the reported frequency along d, which the
+    specification also gives: D(t d) = D_plain(t d) + (4 pi f/V) K(d) (ReqEulerGamma), slope <e|d.grad D_plain|e>."""
+    from phonopy import Phonopy
+    n = case.nc
+    gam = [s_ for s_ in by[c["id"]]["at"] if all(v == 0 for v in s_["x"])][0]
+    Dm0, dD0 = case.expected(gam["x"], c["pden"], gam, False)
+    born = np.array([n.Zraw[a - 1] for a in n.at])
+    objs2 = {"wang": objs["wang/full"], "gonze": n.nac_phonopy("gonze", "full", born=born, eps=n.eps_raw)}
+    lat_p = np.array(objs["wang/full"].primitive.cell)
+    for st in by[c["id"]].get("gamma", []):
+        d_u = st["dir"]
+        d_p = n.to_prim_red(d_u) * 2
+        nc_ = np.linalg.inv(lat_p) @ d_p
+        nc_ = nc_ / np.linalg.norm(nc_)
+        # specification: D(0; d) and the slope along d
+        Kc = case.k_cart(st["K"]) * case.fprime
+        Dn = Dm0.copy()
+        for i in range(case.npa):
+            for j in range(case.npa):
+                Dn[3 * i:3 * i + 3, 3 * j:3 * j + 3] += Kc[i, j] / np.sqrt(n.masses[i] * n.masses[j])
+        ev, vec = np.linalg.eigh(Dn)
+        f_spec = np.sqrt(np.abs(ev)) * np.sign(ev) * fac
+        dDn = sum(nc_[al] * dD0[al] for al in range(3))
+        with np.errstate(divide="ignore", invalid="ignore"):
+            slope_spec = np.real(np.einsum("ib,ij,jb->b", vec.conj(), dDn, vec)) * fac ** 2 / (2 * f_spec)
+        bw = f_spec.max() - f_spec.min()
+        nb = len(f_spec)
+        ok = np.array([f_spec[i] > 2e-2 * bw and min(abs(f_spec[i] - f_spec[j]) for j in range(nb) if j != i) > 2e-2 * bw
+                       for i in range(nb)])
+        for method, ph in objs2.items():
+            try:
+                with quiet():
+                    ph.run_qpoints([[0, 0, 0]], nac_q_direction=d_p, with_group_velocities=True)
+                dct = ph.get_qpoints_dict()
+                gv0 = np.array(dct["group_velocities"][0])
+                f0 = np.array(dct["frequencies"][0])
+                h = 1e-4
+                with quiet():
+                    ph.run_qpoints([lat_p @ (nc_ * h * k) for k in (1, 2, 3)])
+                f1, f2, f3 = np.array(ph.get_qpoints_dict()["frequencies"])
+            except Exception as e:
+                ctx.violation("gv:gamma-direction-raises", "zone-centre group velocity raised %r" % e,
+                              dict(cfg=c, direction=d_u, method=method))
+                continue
+            slope_fd = (-11 * f0 + 18 * f1 - 9 * f2 + 2 * f3) / (6 * h)
+            got = gv0 @ nc_
+            # natural size of a group velocity (dD/dq at the zone centre vanishes for centrosymmetric crystals)
+            sc = np.abs(n.fc_full).max() / n.masses.min() * np.abs(case.L).max() * fac ** 2 / max(f_spec.max(), 1e-9)
+            ctx.count(("gv-gamma", c["id"], tuple(d_u), method), n=int(ok.sum()))
+            if ok.any():
+                e_freq = np.abs(f0[ok] - f_spec[ok]).max() / max(f_spec.max(), 1e-9)
+                e1 = np.abs(got[ok] - slope_fd[ok]).max() / sc
+                e2 = np.abs(slope_spec[ok] - slope_fd[ok]).max() / sc
+                upd(margins, "gv_gamma_dir", e1)
+                upd(margins, "gv_gamma_dir_spec_vs_fd", e2)
+                if not (e1 <= 1e-4) or (method == "wang" and not (e_freq <= 1e-8)):
+                    ctx.violation("gv:gamma-direction:%s" % method,
+                                  "at the zone centre approached along a direction the reported group velocity "
+                                  "(component along the direction) is not the one-sided derivative of the reported "
+                                  "frequency along that direction",
+                                  dict(cfg=c, direction_unit=d_u, direction_prim=d_p, method=method, modes=np.nonzero(ok)[0],
+                                       reported_along_d=got, one_sided_derivative=slope_fd, spec_slope=slope_spec,
+                                       frequencies=f0, rel_err=float(e1)))
 
 
 FREQ_UNIT = 1e-4      # integer unit of the frequencies handed to GVDegeneracy.tla = degenerate_sets' default tolerance
@@ -462,7 +585,7 @@ def cutoff_replay(ctx, c, case, objs, sts, by, fac, margins, gv_events):
     n = case.nc
     for st in sts:
         x = st["x"]
-        q = np.array(x, float) / c["pden"]
+        q = n.to_prim_red(np.array(x, float) / c["pden"])
         for name in ("plain/full", "wang/full"):
             if name not in objs:
                 continue
@@ -646,7 +769,8 @@ def gru_mc(cases, observed):
 
 import itertools as _it
 IMG27 = list(_it.product((-1, 0, 1), repeat=3))
-MESH = {"tetab": [3, 3, 2], "wz": [3, 3, 2], "hcp": [3, 3, 2], "naclg": [3, 3, 3], "sc": [3, 3, 3], "tric": [2, 3, 2]}
+MESH = {"tetab": [3, 3, 2], "wz": [3, 3, 2], "hcp": [3, 3, 2], "naclg": [3, 3, 3], "sc": [3, 3, 3], "tric": [2, 3, 2],
+        "bcc": [3, 3, 3], "nacl": [3, 3, 3]}
 
 
 def near_degenerate(freqs, fac, lo=1e-9, hi=2e-3):
@@ -681,7 +805,10 @@ def gruneisen_part(ctx, margins):
                        mats=[[[1, 1, 0], [0, 1, 0], [0, 0, 2]]]),
                   dict(id=7, k=3, d1=1, d2=1, dd=10, ds=[0, 1], entry="sc", S=diag(3, 3, 3), mats=[diag(3, 3, 3)]),
                   dict(id=8, k=2, d1=1, d2=1, dd=20, ds=[1, 8], entry="wz", S=diag(2, 2, 1),
-                       mats=[diag(2, 2, 1), [[1, -1, 0], [1, 2, 0], [0, 0, 1]]])]
+                       mats=[diag(2, 2, 1), [[1, -1, 0], [1, 2, 0], [0, 0, 1]]]),
+                  dict(id=9, k=2, d1=1, d2=1, dd=10, ds=[0, 1], entry="bcc", S=diag(2, 2, 2), mats=[diag(2, 2, 2)],
+                       pm="I"),
+                  dict(id=10, k=1, d1=1, d2=2, dd=20, ds=[0, 1], entry="nacl", S=I3, mats=[I3], pm="F")]
     if os.environ.get("C12_GRU_ONLY"):                      # experiments only
         cases = [c for c in cases if str(c["id"]) in os.environ["C12_GRU_ONLY"].split(",")]
     res = ctx.tlc("MC_Gru", cfg_text=CFG_GRU, extra_files={"MC_Gru.tla": gru_mc(cases, [])}, requirement=True,
